@@ -31,6 +31,26 @@ TABLE_READ_FNS = {
     "fuel_storage::StorageMut::get": "get", "fuel_storage::StorageMut::contains_key": "contains_key",
 }
 
+# calls that move their arguments into the collection behind the `&mut self` receiver
+INTO_RECEIVER = {
+    "core::iter::traits::collect::Extend::extend", "<alloc::vec::Vec as core::iter::traits::collect::Extend>::extend",
+    "alloc::vec::Vec::push", "alloc::vec::Vec::append", "alloc::vec::Vec::extend_from_slice",
+    "alloc::collections::vec_deque::VecDeque::push_back", "alloc::collections::vec_deque::VecDeque::push_front",
+    "std::collections::hash::map::HashMap::insert", "std::collections::hash::set::HashSet::insert",
+    "alloc::collections::btree::map::BTreeMap::insert",
+}
+ITER_FLOW = (
+    "core::iter::traits::collect::IntoIterator::into_iter", "core::iter::traits::iterator::Iterator::map",
+    "core::iter::traits::iterator::Iterator::collect", "core::iter::traits::iterator::Iterator::filter",
+    "core::iter::traits::iterator::Iterator::filter_map", "core::iter::traits::iterator::Iterator::chain",
+    "core::iter::traits::iterator::Iterator::flatten", "core::iter::traits::iterator::Iterator::flat_map",
+    "core::iter::traits::iterator::Iterator::cloned", "core::iter::traits::iterator::Iterator::copied",
+    "core::iter::traits::iterator::Iterator::next", "core::iter::traits::iterator::Iterator::enumerate",
+    "core::iter::traits::iterator::Iterator::take", "core::iter::traits::iterator::Iterator::skip",
+    "[T]::iter", "alloc::vec::Vec::iter", "alloc::vec::Vec::drain", "alloc::slice::<impl [T]>::to_vec",
+    "core::iter::sources::once::once", "itertools::Itertools::collect_vec", "core::iter::traits::iterator::Iterator::rev",
+)
+
 # result-type discriminants: value of the "bad" variant
 BAD_VARIANT = {
     "core::ops::control_flow::ControlFlow": 1,  # Break
@@ -236,6 +256,13 @@ class Ctx:
                     derived.add(dl)
                     changed = True
             for c in body.calls:
+                if wide and (c.path in INTO_RECEIVER or (c.res and c.res in INTO_RECEIVER)) and len(c.args) >= 2:
+                    # data flows into the collection behind the &mut receiver
+                    if any(op_local(a) in derived for a in c.args[1:] if op_local(a) is not None):
+                        for r in self._referents(body, c.args[0]):
+                            if r not in derived:
+                                derived.add(r)
+                                changed = True
                 if c.dest is None or c.dest["l"] in derived:
                     continue
                 if c.path in transparent or (c.res and c.res in transparent):
@@ -243,6 +270,23 @@ class Ctx:
                         derived.add(c.dest["l"])
                         changed = True
         return derived
+
+    def _referents(self, body, op, _depth=0):
+        """locals a reference operand points to (through `&mut x` / reborrow chains)"""
+        l = op_local(op)
+        out = set()
+        if l is None or _depth > 4:
+            return out
+        for d in body.defs.get(l, []):
+            if d[0] == "assign" and d[4]["k"] in ("ref", "rawptr"):
+                pl = d[4]["pl"]
+                if pl.get("p") and pl["p"][0] == "*":
+                    out |= self._referents(body, {"k": "copy", "l": pl["l"]}, _depth + 1)
+                else:
+                    out.add(pl["l"])
+            elif d[0] == "assign" and d[4]["k"] == "use" and op_local(d[4]["op"]) is not None:
+                out |= self._referents(body, d[4]["op"], _depth + 1)
+        return out
 
     def _result_test(self, body, dl, derived):
         """is local `dl` (a switch discriminant) a test of a derived result? -> (kind, bad)"""
